@@ -87,7 +87,7 @@ func (g *gen) genStruct(depth int) *Struct {
 		}
 		f.Kind = k
 		switch k {
-		case KStruct, KPStruct, KSStruct, KMStruct, KAStruct:
+		case KStruct, KPStruct, KMStruct, KAStruct:
 			f.Sub = g.genStruct(depth + 1)
 		case KInline:
 			f.Sub = g.genStruct(depth + 1)
@@ -101,6 +101,9 @@ func (g *gen) genStruct(depth int) *Struct {
 			inlineUsed = true
 		case KSInt, KSStr, KSVInt:
 			f.Policy = []string{"", "", "replace", "append", "prepend", "merge"}[t.Choose(6, "slice-policy")]
+		case KSStruct:
+			f.Policy = []string{"", "", "replace"}[t.Choose(3, "struct-slice-policy")]
+			f.Sub = g.genStruct(depth + 1)
 		}
 		if k <= KStr && t.Chance(1, 5, "required") {
 			f.Required = true
@@ -161,10 +164,22 @@ func (g *gen) genCase(s *Struct, path string, depth int) *StructCase {
 				}
 			}
 		case KSStruct:
-			fc.Pre = false
 			n := 1 + t.Choose(2, "n-elems")
 			for i := 0; i < n; i++ {
 				fc.Elems = append(fc.Elems, g.genCase(f.Sub, join(fc.Path, itoa(i)), depth+1))
+			}
+			// a pre-filled list of structs is merged element by element, or replaced as a whole
+			// under the replace policy
+			if fc.Pre && (!fc.Mention || depth > 0) {
+				fc.Pre = false // (only where the list is certain to be set: top level, mentioned)
+			}
+			for _, el := range fc.Elems {
+				if el.hasRequired() {
+					fc.Pre = false
+				}
+			}
+			if fc.Pre {
+				g.r.Probe("unpack: pre-filled list of structs")
 			}
 		case KMStruct:
 			fc.Pre = false
@@ -383,6 +398,15 @@ func (sc *StructCase) prefill(v reflect.Value) {
 		case KAStruct:
 			for j, el := range fc.Elems {
 				el.prefill(f.Index(j))
+			}
+			continue
+		case KSStruct:
+			if fc.Pre {
+				l := reflect.MakeSlice(f.Type(), len(fc.Elems), len(fc.Elems))
+				for j := 0; j < l.Len(); j++ {
+					fc.Elems[j].prefill(l.Index(j))
+				}
+				f.Set(l)
 			}
 			continue
 		case KPStruct:
@@ -850,6 +874,16 @@ func (sc *StructCase) apply(v reflect.Value, present bool) {
 			cur.X, cur.Y = VInt(m["x"].(uint64)), m["y"].(string)
 			f.Set(reflect.ValueOf(cur))
 		case KSStruct:
+			if !f.IsNil() && f.Len() > 0 && fc.F.Policy != "replace" {
+				// index-wise: the settings are merged into the elements the list holds, the tail stays
+				l := reflect.MakeSlice(f.Type(), f.Len(), f.Len())
+				reflect.Copy(l, f)
+				for j, e := range fc.Elems {
+					e.apply(l.Index(j), true)
+				}
+				f.Set(l)
+				break
+			}
 			l := reflect.MakeSlice(f.Type(), len(fc.Elems), len(fc.Elems))
 			for j, e := range fc.Elems {
 				e.applyFresh(l.Index(j))
